@@ -1188,7 +1188,9 @@ def cmd_pins():
 #   kind     get | set | other
 #   op       get | getAll | set | insert | remove | rename | contains | items | paragraphs | addParagraph | none
 #   clearOp  op used by the clearing branch of a setter (Option argument / `false` flag), or none
-#   names    field-name literals, in order of first use
+#   names    field-name literals, in order of first use (setters over several names: the order in which the
+#            fields are looked for; the first one present is the one written)
+#   dflt     setter: the name written when none of `names` is present
 #   shape    closed set, see SHAPES
 #   strict   getter: the parse result is `unwrap()`ed (unparsable text panics)
 #   absent   getter: none (Option) | default (unwrap_or_default / unwrap_or(false) on the result) | panic (unwrap)
@@ -1212,7 +1214,7 @@ ACC_FILES = [
 #   elem  "str" | type name
 SHAPES = ["str", "typed", "list", "flagYes", "flagYesNo", "flagYesOrRemove", "firstLine", "restLines",
           "license", "licenseBareText", "licenseName", "licenseText", "originField", "rfc2822", "dateYmd",
-          "envMap", "findPara", "filterPara", "addPara", "composite", "derived", "opaque"]
+          "envMap", "vcsScan", "findPara", "filterPara", "addPara", "composite", "derived", "opaque"]
 
 PARA_OPS = {"get": "get", "get_all": "getAll", "set": "set", "insert": "insert", "remove": "remove",
             "rename": "rename", "contains_key": "contains", "items": "items", "paragraphs": "paragraphs",
@@ -1527,6 +1529,10 @@ def classify_getter(me, helpers, where):
             shape = ("list", shape[1], shape[2], short_type(inner_type(inner_type(me.ret))))
         return {"kind": "get", "op": "get", "clearOp": "none", "names": names, "shape": shape,
                 "strict": strict, "absent": absent, "optional": False}
+    # first `Vcs-<X>` field other than Vcs-Browser, through Vcs::from_field(<X>, value)
+    if b == 'for(name,value)in self.0.items(){if name=="Vcs-Browser"{continue;}if let Some(vcs)=name.strip_prefix("Vcs-"){return crate::vcs::Vcs::from_field(vcs,&value).ok();}}None':
+        return {"kind": "get", "op": "items", "clearOp": "none", "names": [], "shape": ("vcsScan",),
+                "strict": False, "absent": "none", "optional": False}
     m = re.fullmatch(r"self\.0\.get_all\(" + NAME + r"\)\.collect\(\)", b)
     if m:
         return {"kind": "get", "op": "getAll", "clearOp": "none", "names": [lit(m.group(1), where)],
@@ -1615,14 +1621,46 @@ def classify_setter(me, where):
     # 4. license
     if b in LICENSE_SET:
         return dict(base, op="set", names=["License"], shape=(LICENSE_SET[b],))
-    # 5. one of two names: if contains(A) { op(A, x) } else { op(B, x) }
+    # 5. one of two names.  `names` is the order in which the fields are looked for (the first one present
+    #    is written), `dflt` the name written when none is present.
+    #    old form: if contains(B) { op(B, x) } else { op(A, x) }             -> names [B, A], dflt A
     m = re.fullmatch(r"if self\.0\.contains_key\(" + NAME + r"\)\{self\.0\.(set|insert)\(" + NAME + r",(\w+)\);\}else\{self\.0\.(set|insert)\(" + NAME + r",(\w+)\);\}", b)
     if m and m.group(1) == m.group(3) and m.group(2) == m.group(5) and m.group(4) == m.group(7):
         got = arg_shape(m.group(4), me.params, where)
         if got and got[0] == ("str",):
-            return dict(base, op=m.group(2), names=[lit(m.group(6), where), lit(m.group(1), where)], shape=("str",))
+            return dict(base, op=m.group(2), names=[lit(m.group(1), where), lit(m.group(6), where)], shape=("str",),
+                        dflt=lit(m.group(6), where))
+    #    new form: if contains(A) || !contains(B) { op(A, x) } else { op(B, x) } -> names [A, B], dflt A
+    m = re.fullmatch(r"if self\.0\.contains_key\(" + NAME + r"\)\|\|!self\.0\.contains_key\(" + NAME + r"\)\{self\.0\.(set|insert)\(" + NAME + r",(\w+)\);\}else\{self\.0\.(set|insert)\(" + NAME + r",(\w+)\);\}", b)
+    if m and m.group(1) == m.group(4) and m.group(2) == m.group(7) and m.group(3) == m.group(6) and m.group(5) == m.group(8) \
+            and m.group(1) != m.group(2):
+        got = arg_shape(m.group(5), me.params, where)
+        if got and got[0] == ("str",):
+            return dict(base, op=m.group(3), names=[lit(m.group(1), where), lit(m.group(2), where)], shape=("str",),
+                        dflt=lit(m.group(1), where))
+    # 5b. first line / remaining lines of one of two fields (DEP-3 Description / Subject):
+    #     if let Some(o) = get(A) { set(A, F(o, x)) } else if let Some(o) = get(B) { set(B, F(o, x)) } else { set(D, x) }
+    P = me.params[1][0] if len(me.params) == 2 else None
+    if P:
+        first_br = (r"let new=match VAR\.split_once\('\\n'\)\{Some\(\(_,rest\)\)=>format!\(\"\{\}\\n\{\}\"," + P + r",rest\),None=>" + P
+                    + r"\.to_string\(\),\};self\.0\.set\(NM,new\.as_str\(\)\);")
+        rest_br = (r"let first_line=VAR\.split_once\('\\n'\)\.map\(\|x\|x\.0\)\.unwrap_or\(VAR\.as_str\(\)\);let new=if " + P
+                   + r"\.is_empty\(\)\{first_line\.to_string\(\)\}else\{format!\(\"\{\}\\n\{\}\",first_line," + P
+                   + r"\)\};self\.0\.set\(NM,new\.as_str\(\)\);")
+        for br, tag in ((first_br, "firstLine"), (rest_br, "restLines")):
+            rx = (r"if let Some\((?P<v1>\w+)\)=self\.0\.get\((?P<g1>" + STR + r")\)\{" + br.replace("VAR", "(?P=v1)").replace("NM", "(?P<n1>" + STR + ")") + r"\}"
+                  r"else if let Some\((?P<v2>\w+)\)=self\.0\.get\((?P<g2>" + STR + r")\)\{" + br.replace("VAR", "(?P=v2)").replace("NM", "(?P<n2>" + STR + ")") + r"\}"
+                  r"else\{self\.0\.set\((?P<d>" + STR + r")," + P + r"\);\}")
+            m = re.fullmatch(rx, b)
+            if m and m.group("g1") == m.group("n1") and m.group("g2") == m.group("n2") and m.group("g1") != m.group("g2") \
+                    and m.group("d") in (m.group("g1"), m.group("g2")) and dict(me.params[1:]).get(P) == "&str":
+                return dict(base, op="set", names=[lit(m.group("g1"), where), lit(m.group("g2"), where)], shape=(tag,),
+                            dflt=lit(m.group("d"), where))
+    # 5c. environment: sorted `KEY=value` lines
+    if b == 'let mut vars=env.iter().map(|(key,value)|format!("{}={}",key,value)).collect::<Vec<_>>();vars.sort();self.0.set("Environment",&vars.join("\\n"));':
+        return dict(base, op="set", names=["Environment"], shape=("envMap",))
     # 6. paragraph-level: add_paragraph + set(N, name)
-    m = re.fullmatch(r"let mut (\w+)=self\.0\.add_paragraph\(\);\1\.set\(" + NAME + r",(\w+)\);(.*)", b)
+    m = re.fullmatch(r"let mut (\w+)=self\.0\.add_paragraph\(\);\1\.set\(" + NAME + r",(\w+)\);(\w+)\(\1\)", b)
     if m:
         return dict(base, kind="set", op="addParagraph", names=[lit(m.group(2), where)], shape=("addPara",))
     # 7. composite: every mutation is the same op on a literal name; the written text is not modelled
@@ -1708,6 +1746,7 @@ def extract_accessors(srcs):
                     got = {"kind": kind, "op": PARA_OPS[ops[0]] if ops else "none", "clearOp": "none",
                            "names": [lit(x, where) for x in re.findall(r"self\.0\.\w+\((" + STR + r")", me.body)],
                            "shape": ("opaque",), "strict": False, "absent": "none", "optional": False}
+                got.setdefault("dflt", got["names"][0] if got["kind"] == "set" and got["names"] else "")
                 got.update(view=view, method=me.name, site=where, feature=me.feature,
                            params=[f"{n}:{t}" for n, t in me.params if t is not None], ret=me.ret)
                 rows.append(got)
@@ -1751,7 +1790,7 @@ def emit_acc_lean(rows, skipped):
         names = "[" + ", ".join(lean_str(n) for n in r["names"]) + "]"
         L.append(f"  -- {r['site']}")
         L.append(f"  ⟨{lean_str(r['view'])}, {lean_str(r['method'])}, .{r['kind']}, .{r['op']}, .{r['clearOp']}, {names}, "
-                 f"{lean_shape(r['shape'])}, {'true' if r['strict'] else 'false'}, .{r['absent']}, {'true' if r['optional'] else 'false'}⟩"
+                 f"{lean_shape(r['shape'])}, {'true' if r['strict'] else 'false'}, .{r['absent']}, {'true' if r['optional'] else 'false'}, {lean_str(r['dflt'])}⟩"
                  + ("," if i + 1 < len(rows) else ""))
     L.append("]")
     L.append("")
@@ -1764,7 +1803,7 @@ def emit_acc_json(rows, skipped):
         "generated_by": "tools/translate.py accessors",
         "rows": [{"view": r["view"], "method": r["method"], "kind": r["kind"], "op": r["op"], "clear_op": r["clearOp"],
                   "names": r["names"], "shape": json_shape(r["shape"]), "strict": r["strict"], "absent": r["absent"],
-                  "optional": r["optional"], "site": r["site"], "params": r["params"], "ret": r["ret"],
+                  "optional": r["optional"], "default": r["dflt"], "site": r["site"], "params": r["params"], "ret": r["ret"],
                   "feature": r["feature"]} for r in rows],
         "skipped": [{"view": v, "method": m, "site": s, "why": w} for v, m, s, w in skipped],
     }, indent=1, ensure_ascii=True) + "\n"
@@ -1813,6 +1852,8 @@ def cmd_accessors(update_baseline=False):
             lost.append(f"{key}: classified as {tag} in the baseline, no longer present")
         elif current[key] == "opaque":
             lost.append(f"{key}: classified as {tag} in the baseline, now opaque")
+        elif current[key] == "composite" and tag != "composite":
+            lost.append(f"{key}: classified as {tag} in the baseline, now only composite (written text no longer modelled)")
     new = sorted(k for k in current if k not in base)
     print(f"translate accessors: {len(rows)} rows from {len(ACC_FILES)} files, {len(opaque)} opaque, "
           f"{len(skipped)} methods skipped, {len(new)} not in the baseline")
